@@ -32,6 +32,9 @@ def configs():
         'sc-1': (lambda: crystal.Crystal(np.eye(3), [a([0., 0., 0.])]), 0, 1.01, 1),
         'rect2-1': (lambda: crystal.Crystal(a([[1., 0.], [0., 1.25]]), [[a([0., 0.]), a([0.5, 0.5])]], noreduce=True), 0, 0.9, 1),
         'square-2': (lambda: crystal.Crystal(np.eye(2), [a([0., 0.])]), 0, 1.01, 2),
+        # two sites related by inversion, each with only a mirror: non-empty site vector basis (origin-state corrections active)
+        'rumple2d-1': (lambda: crystal.Crystal(a([[1., 0.], [0., 1.25]]), [[a([0., 0.1]), a([0., 0.9])]], noreduce=True), 0, 1.05, 1),
+        'rumple2d-s': (lambda: crystal.Crystal(a([[1., 0.], [0., 2.]]), [[a([0., 0.1]), a([0., 0.9])]], noreduce=True), 0, 1.05, 1),
     }
 
 
@@ -101,6 +104,19 @@ def input_dict(*argsets):
     return d
 
 
+def probes(inputs, n=2):
+    """point instantiations of the symbolic inputs (dyadic values), offered when a universal query is undecided"""
+    vals = [0.25, -0.5, 0.75, 1.25, -0.125, 0.5, 1.0, -0.75, 0.375, 1.5, -0.25, 0.625, 0.875]
+    out = []
+    for k in range(n):
+        def mk(k=k):
+            ih = [v == vals[(i * 5 + 3 * k) % len(vals)] for i, (nm, v) in enumerate(sorted(inputs.items()))]
+            uh = contracts.uf_point_assignment(k, ih)
+            return None if uh is None else ih + uh
+        out.append(mk)
+    return out
+
+
 def snapshot(L):
     return [np.array(x, dtype=object).copy() if isinstance(x, np.ndarray) and x.dtype == object else np.array(x).copy() for x in L]
 
@@ -145,6 +161,9 @@ def scenario(cfg, kind, large):
             import contextlib
             ctx = contextlib.nullcontext()
         info = {'inputs': inputs, 'replayer': 'hist', 'extra': {'cfg': cfg, 'kind': kind, 'large': large}}
+        if symbolic:
+            info['probe'] = probes(inputs)
+            info['probe_first'] = True
         obs = []
         with ctx:
             L1 = calc.Lij(*x, large_om2=lom2)
